@@ -465,10 +465,155 @@ def run_io(prop, tier, deadline):
     return outcome
 
 
+# ------------------------------------------------------------------------------------------- C17
+DEBUG_DEFS = ["-D_GLIBCXX_DEBUG", "-D_GLIBCXX_DEBUG_PEDANTIC", "-D_GLIBCXX_ASSERTIONS"]
+C17_CELLS = {
+    # name: (compiler, flags, env, kind)
+    "gxx-O2-plain": ("g++", ["-O2"], {}, "plain"),
+    "gxx-O1-debugmode": ("g++", ["-O1"] + DEBUG_DEFS, {}, "debug"),
+    "clang-O1-asan-ubsan": ("clang++", SAN_FLAGS, SAN_ENV, "san"),
+    "gxx-O0-plain": ("g++", ["-O0"], {}, "plain"),
+    "clang-O2-plain": ("clang++", ["-O2"], {}, "plain"),
+    "clang-O0-debugmode": ("clang++", ["-O0"] + DEBUG_DEFS, {}, "debug"),
+    "gxx-O2-asan-ubsan": ("g++", ["-O2", "-fsanitize=address,undefined", "-fno-sanitize-recover=undefined", "-fno-omit-frame-pointer"], SAN_ENV, "san"),
+    "clang-O1-autoinit-pattern": ("clang++", ["-O1", "-ftrivial-auto-var-init=pattern"], {}, "plain"),
+    "gxx-O1-plain": ("g++", ["-O1"], {}, "plain"),
+    "clang-O1-debugmode-asan": ("clang++", SAN_FLAGS + DEBUG_DEFS, SAN_ENV, "san"),
+}
+C17_SOURCES = {"e1": ("harness/e1_props.cpp", E1_GROUPS), "shapes": ("harness/shapes.cpp", SHAPES_GROUPS), "paths": ("harness/paths.cpp", PATHS_GROUPS), "io": ("harness/io.cpp", IO_GROUPS)}
+
+
+def c17_build(cell, harness, group):
+    comp, flags, _, _ = C17_CELLS[cell]
+    if cell == "gxx-O2-plain":   # identical to the builds of the other checks: shared through the cache
+        return {"e1": e1_build, "shapes": shapes_build, "paths": paths_build, "io": io_build}[harness](group)
+    return Build("c17_%s_%s_g%d" % (cell, harness, group), C17_SOURCES[harness][0], compiler=comp, flags=flags + ["-DGROUP=%d" % group])
+
+
+def c17_jobs(tier):
+    """(harness, config-for-group, label, args, needs_tmpdir)"""
+    jobs = []
+    e1cfgs = ["dir_NoLabel", "und_NoLabel", "dir_int", "und_int", "dmulti", "umulti", "dweighted", "uweighted"]
+    if tier == "thorough":
+        e1cfgs += ["dir_string", "und_string", "dir_struct", "und_struct", "dir_double", "und_char"]
+    for c in e1cfgs:
+        jobs.append(("e1", c, "histories(no force) %s" % c, ["--prop", "C17", "--config", c, "--variant", "n2"], False))
+    for c in ["und_NoLabel", "dir_int", "umulti", "dmulti", "uweighted", "dweighted"]:
+        jobs.append(("e1", c, "histories(force) %s" % c, ["--prop", "C17F", "--config", c, "--variant", "n2"], False))
+    if tier == "thorough":
+        for c in ["dir_NoLabel", "und_NoLabel"]:
+            jobs.append(("e1", c, "histories n3 %s" % c, ["--prop", "C17", "--config", c, "--variant", "n3"], False))
+    for c in ["dir_int", "und_int"] + (["dir_NoLabel", "und_NoLabel", "dir_string", "und_string", "dmulti", "umulti", "dweighted", "uweighted"] if tier == "thorough" else []):
+        jobs.append(("shapes", c, "iteration %s" % c, ["--prop", "C08", "--config", c, "--variant", "n2"], True))
+        if c.startswith(("dir_", "und_")):
+            jobs.append(("shapes", c, "conversions %s" % c, ["--prop", "C09", "--config", c, "--variant", "n2"], True))
+            jobs.append(("shapes", c, "subgraphs %s" % c, ["--prop", "C10", "--config", c, "--variant", "n2"], True))
+        jobs.append(("shapes", c, "constructors %s" % c, ["--prop", "C09", "--config", c, "--variant", "ctor", "--len", "2"], True))
+    jobs.append(("paths", "dir", "bfs dir e1n3", ["--prop", "C11", "--config", "dir", "--source", "e1", "--n", "3"], False))
+    jobs.append(("paths", "und", "bfs und e1n3", ["--prop", "C11", "--config", "und", "--source", "e1", "--n", "3"], False))
+    jobs.append(("paths", "dir", "bfs dir layered", ["--prop", "C11", "--config", "dir", "--source", "layered", "--maxv", "9"], False))
+    jobs.append(("paths", "dw", "dijkstra dw e2n3", ["--prop", "C12", "--config", "dw", "--source", "e2", "--n", "3", "--weights", "0,1,3"], False))
+    jobs.append(("paths", "uw", "dijkstra uw perm4", ["--prop", "C12", "--config", "uw", "--source", "perm", "--n", "4", "--edges", "5", "--weights", "1,3,8"], False))
+    jobs.append(("paths", "dw", "dijkstra dw perm4", ["--prop", "C12", "--config", "dw", "--source", "perm", "--n", "4", "--edges", "4", "--weights", "1,8"], False))
+    if tier == "thorough":
+        jobs.append(("paths", "dw", "dijkstra dw 5-edge graphs on 5 vertices", ["--prop", "C12", "--config", "dw", "--source", "subsets", "--n", "5", "--edges", "5", "--weights", "1,3,8", "--stride", "5"], False))
+        jobs.append(("paths", "uw", "dijkstra uw K4 all orders", ["--prop", "C12", "--config", "uw", "--source", "perm", "--n", "4", "--edges", "6", "--weights", "1,3,8"], False))
+    jobs.append(("paths", "dw", "dijkstra dw ladder", ["--prop", "C12", "--config", "dw", "--source", "ladder", "--maxl", "12"], False))
+    if tier == "thorough":
+        jobs.append(("paths", "dir", "bfs dir e2n4", ["--prop", "C11", "--config", "dir", "--source", "e2", "--n", "4"], False))
+        jobs.append(("paths", "und", "bfs und e2n5", ["--prop", "C11", "--config", "und", "--source", "e2", "--n", "5"], False))
+        jobs.append(("paths", "uw", "dijkstra uw e2n4", ["--prop", "C12", "--config", "uw", "--source", "e2", "--n", "4", "--weights", "0,1"], False))
+    for c, pr in [("dir_int", "C13"), ("und_NoLabel", "C13"), ("und_int", "C14"), ("dir_i64", "C14")] + ([("dir_string", "C13"), ("und_double", "C13"), ("dir_u8", "C14"), ("dir_float", "C14"), ("und_u64", "C14")] if tier == "thorough" else []):
+        jobs.append(("io", c, "file round trip %s %s" % (pr, c), ["--prop", pr, "--part", "roundtrip", "--config", c, "--len", "2"], True))
+    return jobs
+
+
+def run_c17(tier, deadline):
+    import shutil
+    outcome = Outcome("C17", tier, "exploration")
+    cells = ["gxx-O2-plain", "gxx-O1-debugmode", "clang-O1-asan-ubsan"] if tier == "quick" else list(C17_CELLS.keys())
+    jl = c17_jobs(tier)
+    builds = {}
+    for cell in cells:
+        for (harness, cfg, label, args, tmp) in jl:
+            g = C17_SOURCES[harness][1][cfg]
+            builds[(cell, harness, g)] = c17_build(cell, harness, g)
+    built = build_all(list(builds.values()))
+    if compile_failures(outcome, built):
+        outcome.coverage = {"evaluations": 1, "distinct_nontrivial": 0, "rule": "harness did not compile", "samples": ["compile failure"]}
+        return outcome
+    workdir = os.path.join(build_dir(), "work-C17-%s-%d" % (tier, os.getpid()))
+    jobs = []
+    k = 0
+    for cell in cells:
+        comp, flags, env, kind = C17_CELLS[cell]
+        for (harness, cfg, label, args, tmp) in jl:
+            a = list(args) + ["--tier", "quick"]
+            if tmp:
+                tmpd = os.path.join(workdir, "t%d" % k)
+                os.makedirs(tmpd, exist_ok=True)
+                a += ["--tmpdir", tmpd]
+            k += 1
+            j = Job(builds[(cell, harness, C17_SOURCES[harness][1][cfg])], a, label="%s | %s" % (cell, label), timeout=deadline + 300, deadline=deadline, env=env)
+            j.cell, j.joblabel = cell, label
+            jobs.append(j)
+    # valgrind memcheck (uninitialised-value use) on the smallest bound, plain -O0 -g build
+    vg = None
+    if tier == "thorough" and shutil.which("valgrind"):
+        vb = Build("c17_valgrind_e1_g1", "harness/e1_props.cpp", compiler="g++", flags=["-O0", "-g", "-DGROUP=1"])
+        built.update(build_all([vb]))
+        vg = vb
+    run_jobs(jobs, built, workdir)
+    results = collect(outcome, jobs, built)   # crashes / sanitizer aborts / debug-mode aborts / hangs become violations here
+    # the harnesses' own clause failures are the business of C01-C16, unless they differ between cells
+    outcome.violations = [v for v in outcome.violations if ":crash:" in v["signature"] or ":hang:" in v["signature"]]
+    by_label = {}
+    for j in jobs:
+        # a run stopped by its deadline observed a prefix only: its digest is not comparable
+        if j.result is not None and not any("deadline" in c for c in j.result.get("caps_hit", [])):
+            by_label.setdefault(j.joblabel, {})[j.cell] = (j.result.get("digest"), j.result.get("violation_count", 0), j)
+    mismatches = 0
+    for label, per in sorted(by_label.items()):
+        ref_cell = "gxx-O2-plain" if "gxx-O2-plain" in per else sorted(per)[0]
+        ref = per[ref_cell]
+        for cell, (dg, vc, j) in sorted(per.items()):
+            if dg != ref[0] or vc != ref[1]:
+                mismatches += 1
+                outcome.add_violation("C17:config-dependent-result:%s" % label, "job `%s`: observation digest %s / %d clause failures under %s, but %s / %d under %s: results depend on the build configuration" % (
+                    label, dg, vc, cell, ref[0], ref[1], ref_cell), {"build": j.build.name, "args": j.args, "env": j.env})
+    vg_note = "not run at this tier"
+    if vg is not None:
+        ok, path, _ = built[vg.name]
+        import subprocess
+        cmd = ["valgrind", "--error-exitcode=99", "--quiet", "--track-origins=no", path, "--prop", "C06", "--config", "dir_int", "--variant", "n1", "--tier", "quick"]
+        p = subprocess.run(cmd, stdout=subprocess.PIPE, stderr=subprocess.STDOUT, text=True, timeout=3000)
+        vg_note = "valgrind memcheck on e1 dir_int n1: exit %d" % p.returncode
+        if p.returncode == 99:
+            outcome.add_violation("C17:valgrind", "valgrind memcheck reports an error on valid use:\n" + p.stdout[-2500:], {"command": " ".join(cmd)})
+    shutil.rmtree(workdir, ignore_errors=True)
+    outcome.coverage = {
+        "evaluations": len(jobs),
+        "distinct_nontrivial": sum(1 for j in jobs if j.result is not None and j.cell != "gxx-O2-plain"),
+        "rule": "case = (valid-use exploration job, build configuration). Jobs are the bounded exhaustive explorations of C01-C16 restricted to valid use (histories with and without force on all classes, iteration, conversions, "
+                "subgraphs, constructors, BFS and Dijkstra enumerations, text/binary round trips); every job is run in every configuration cell. Oracle per cell: no sanitizer report, no libstdc++ debug-mode / assertion abort, "
+                "no crash or hang; and the digest of all observations plus the clause-failure count is identical in all cells. Non-trivial = instrumented or differently optimised cells (everything but the reference cell).",
+        "samples": [{"cells": cells}, {"jobs": sorted(by_label.keys())[:12]}, {"example": "job `dijkstra uw perm4` in cell gxx-O1-debugmode: every 5-edge subgraph of K4 in all insertion orders x weights {1,3,8}, std::pop_heap/make_heap preconditions checked by libstdc++ debug mode"}],
+        "cells": {c: {"compiler": C17_CELLS[c][0], "flags": C17_CELLS[c][1]} for c in cells},
+        "jobs_per_cell": len(jl),
+        "inner_cases": sum(int(r.get("counters", {}).get("cases", 0)) + int(r.get("counters", {}).get("transitions", 0)) for r in results),
+        "digest_mismatches": mismatches,
+        "valgrind": vg_note,
+    }
+    outcome.assumptions = ["MemorySanitizer is not used (no instrumented libstdc++ in this image); uninitialised reads are covered by -ftrivial-auto-var-init=pattern digests and valgrind at the thorough tier",
+                           "undefined behaviour that neither trips a sanitizer / debug-mode check nor changes any observation in any cell is not detected"]
+    return outcome
+
+
 import c20  # noqa: E402
 
 PLANS = {}
 PLANS["C20"] = c20.run_c20
+PLANS["C17"] = run_c17
 for _p in IO_PLANS:
     PLANS[_p] = (lambda prop: (lambda tier, deadline: run_io(prop, tier, deadline)))(_p)
 for _p in PATHS_PLANS:
@@ -480,8 +625,16 @@ for _p in E1_PLANS:
     PLANS[_p] = (lambda prop: (lambda tier, deadline: run_e1(prop, tier, deadline)))(_p)
 
 
+def c17_setup_builds():
+    out = []
+    for cell in ("gxx-O1-debugmode", "clang-O1-asan-ubsan"):
+        for (harness, cfg, label, args, tmp) in c17_jobs("quick"):
+            out.append(c17_build(cell, harness, C17_SOURCES[harness][1][cfg]))
+    return out
+
+
 def all_builds():
-    bs = [e1_build(g) for g in range(8)] + [c07_build(g) for g in range(10)] + [shapes_build(g) for g in range(9)] + [paths_build(g) for g in range(4)] + [io_build(g) for g in range(4)] + [io_build(g, True) for g in range(4)]
+    bs = [e1_build(g) for g in range(8)] + [c07_build(g) for g in range(10)] + [shapes_build(g) for g in range(9)] + [paths_build(g) for g in range(4)] + [io_build(g) for g in range(4)] + [io_build(g, True) for g in range(4)] + c17_setup_builds()
     return bs
 
 
